@@ -631,3 +631,52 @@ Proof. intros Hs Hu. induction k as [|k IH]; [reflexivity|]. cbn [burst]. unfold
 Lemma burst_standby c s k : state s = Standby -> burst c s k = (s, Z.of_nat k).
 Proof. intros Hs. induction k as [|k IH]; [reflexivity|]. cbn [burst]. unfold arrive. rewrite Hs. rewrite IH.
   f_equal. lia. Qed.
+
+(* ------------------------------------------------------------------ C05: the shield when the wall clock is set back *)
+(* [tripped_step] never uses that clock advances are non-negative: *)
+Lemma tripped_step_any c s o : state s = Tripped -> now (fst (step c s o)) < until s ->
+  state (fst (step c s o)) = Tripped /\ until (fst (step c s o)) = until s.
+Proof.
+  intros Hs. destruct o as [h|code h lats|d| |code|h lats]; cbn [step fst].
+  - intros Hn. assert (Hlt : now s < until s).
+    { pose proof (now_step c s (Arrive h) I) as H. cbn [step] in H. lia. }
+    rewrite (arrive_tripped_fallback c s h Hs Hlt). cbn. auto.
+  - intros _. complete_cases c s code h lats; cbn in *; try congruence; auto.
+  - intros _. unf. cbn. auto.
+  - auto.
+  - intros _. cbn. auto.
+  - intros _. check_cases c s h lats; cbn in *; try congruence; auto.
+Qed.
+
+(* every clock reading along the way is below u (the clock may go back and forth) *)
+Fixpoint all_below (c : cfg) (s : st) (ops : list op) (u : Z) : Prop :=
+  match ops with
+  | [] => True
+  | o :: r => now (fst (step c s o)) < u /\ all_below c (fst (step c s o)) r u
+  end.
+
+Lemma shield_exec_any c ops : forall s, state s = Tripped -> all_below c s ops (until s) ->
+  state (exec (step c) s ops) = Tripped /\ until (exec (step c) s ops) = until s.
+Proof.
+  induction ops as [|o r IH]; intros s Hs Hb; cbn in *; [auto|]. destruct Hb as [H1 H2].
+  destruct (tripped_step_any c s o Hs H1) as [A B].
+  destruct (IH (fst (step c s o)) A) as [A' B']; [rewrite B; exact H2|].
+  split; [assumption|congruence].
+Qed.
+
+(* from the step that trips the breaker: whatever the clock does afterwards (forwards, backwards), as long as it never
+   reads trip instant + fallback duration or more, the breaker stays tripped, the deadline stays, arrivals fall back *)
+Lemma shield_any_clock c s o ops :
+  state s <> Tripped -> state (fst (step c s o)) = Tripped ->
+  let s1 := fst (step c s o) in
+  all_below c s1 ops (now s + fallbackD c) -> now s1 < now s + fallbackD c ->
+  let s2 := exec (step c) s1 ops in
+  state s2 = Tripped /\ until s2 = now s + fallbackD c /\ (now s2 < now s + fallbackD c -> forall h', step c s2 (Arrive h') = (s2, Fallback)).
+Proof.
+  intros Hne Ht s1 Hb Hn1 s2.
+  assert (U : until s1 = now s + fallbackD c).
+  { pose proof (shield c s o [] Hne Ht) as S. cbn in S. destruct S as (_ & S & _); [constructor|exact Hn1|exact S]. }
+  destruct (shield_exec_any c ops s1 Ht) as [A B]; [rewrite U; exact Hb|].
+  fold s2 in A, B. split; [exact A|]. split; [congruence|].
+  intros Hlt h'. cbn [step]. rewrite (arrive_tripped_fallback c s2 h' A); [reflexivity|]. rewrite B, U. exact Hlt.
+Qed.
